@@ -33,7 +33,7 @@ ASSUMPTIONS = [
     "numpy comes from the offline wheelhouse (installed into /verif/.deps by setup.sh or by this check)",
 ]
 SHARD_TIMEOUT = {"quick": 900, "thorough": 5400}
-PERMS = {"quick": 12, "thorough": 150}
+PERMS = {"quick": 12, "thorough": 80}
 SHARDS = {"quick": 16, "thorough": 16}
 
 
